@@ -22,6 +22,10 @@ fn plans(tier: Tier) -> Vec<Plan> {
             // From non-initial states (free list in descending order after one fill-and-drain).
             Plan { n: 4, depth: 3, cfgs: traced(&[0], false).into_iter().filter(|c| !c.ap).map(|mut c| { c.preroll = 1; c.notify_ops = false; c }).collect() },
             Plan { n: 2, depth: 3, cfgs: traced(&[65533], true).into_iter().filter(|c| !c.ap).map(|mut c| { c.preroll = 1; c.notify_ops = false; c }).collect() },
+            // With the blocking helper in the alphabet (untraced: the device looks at the entry
+            // the helper published when it is notified, while the driver waits, or afterwards):
+            // whatever the helper returns, its entry stays completely written until it is used.
+            Plan { n: 4, depth: 4, cfgs: qcheck::all_flag_cfgs(&[0], false, false).into_iter().filter(|c| !c.ap).map(|mut c| { c.reduced = true; c.wait_pop = true; c }).collect() },
         ],
         Tier::Thorough => vec![
             Plan { n: 1, depth: 9, cfgs: traced(&[0, 65535, 65533], true) },
@@ -30,6 +34,7 @@ fn plans(tier: Tier) -> Vec<Plan> {
             Plan { n: 8, depth: 4, cfgs: traced(&[0], false) },
             Plan { n: 4, depth: 5, cfgs: traced(&[0, 65533], true).into_iter().filter(|c| !c.ap).flat_map(|c| [1u8, 2].map(|p| { let mut c = c; c.preroll = p; c.notify_ops = false; c })).collect() },
             Plan { n: 8, depth: 3, cfgs: traced(&[0], false).into_iter().filter(|c| !c.ap).map(|mut c| { c.preroll = 1; c.notify_ops = false; c }).collect() },
+            Plan { n: 4, depth: 6, cfgs: qcheck::all_flag_cfgs(&[0, 65533], false, true).into_iter().filter(|c| !c.ap).map(|mut c| { c.reduced = true; c.wait_pop = true; c }).collect() },
         ],
     }
 }
